@@ -39,8 +39,6 @@ def account(res, H, nontrivial=None):
         _bump(res['restarts'], r[0])
     for k, v in H.faults_fired.items():
         _bump(res['faults_fired'], k, v)
-    for k, v in H.insitu_counts.items():
-        _bump(res['insitu'], k, v)
     for f in S.features(H.scn):
         _bump(res['features'], f)
     res['base_shifts'] += H.base_shifts
@@ -70,6 +68,17 @@ def judge(res, H, oracle_ids, scn, kind='solve', extra=None):
         else:
             vs = fn(H)
         found += vs
+    for k, v in H.insitu_counts.items():      # merged here, after the oracles ran (history oracles count what they asserted too)
+        _bump(res['insitu'], k, v)
+    for nm in ('c09_maxratio', 'c12_max', 'c13_norm_excess', 'c14_dir_ratio', 'c14_cond'):
+        if hasattr(H, nm):
+            res['stats'][nm + '.max'] = max(res['stats'].get(nm + '.max', -1e300), float(getattr(H, nm)))
+    if getattr(H, 'dyk_stats', None):
+        for k_, v_ in H.dyk_stats.items():
+            if k_ in ('maxratio', 'maxerr'):
+                res['stats']['dykstra.' + k_ + '.max'] = max(res['stats'].get('dykstra.' + k_ + '.max', 0.0), float(v_))
+            else:
+                res['stats']['dykstra.' + k_] = res['stats'].get('dykstra.' + k_, 0) + v_
     props = set(oracle_ids)
     for v in H.insitu:
         if v['prop'] in props or 'insitu' in props:
